@@ -540,7 +540,11 @@ func (x *Exec) applyContract(fr *Frame, st *State, c *Contract, fn *ssa.Function
 				continue
 			}
 			if closureAssigns(fn, i) {
-				x.store(st, v.P, x.freshValue("cap_"+fv.Name(), pt.Elem(), st.guard))
+				nv := x.freshValue("cap_"+fv.Name(), pt.Elem(), st.guard)
+				if nv.K == KSlice && c.ZeroOffsets {
+					nv.Off = IntLit(0) // obliged at every store of the closure (its own verification)
+				}
+				x.store(st, v.P, nv)
 			}
 			post.vars["post_"+fv.Name()] = x.load(st, v.P, pt.Elem())
 		}
@@ -1066,6 +1070,18 @@ func (x *Exec) VerifyFunction(fn *ssa.Function, c *Contract) (res *VerifyResult)
 	// iter := func(){ .. isIn(x) .. }) has a statically known identity: calls through it are calls of that closure,
 	// whose own captures are this closure's captures of the same variables
 	x.bindSiblingClosures(fn, bind)
+	x.zeroOffBases = nil
+	if c != nil && c.ZeroOffsets && fn.Parent() != nil {
+		x.zeroOffBases = map[string]bool{}
+		for i, fv := range fn.FreeVars {
+			if pt, ok := fv.Type().(*types.Pointer); ok && bind[i].K == KPtr {
+				if _, isSlice := pt.Elem().Underlying().(*types.Slice); isSlice {
+					x.zeroOffBases[bind[i].P.Base.String()] = true
+					x.trusted["zerooffsets: the slice variable "+fv.Name()+" captured by "+funcDisplayName(fn)+" has offset 0 when the closure is first entered (the enclosing function initialises it to nil or to an append result)"] = true
+				}
+			}
+		}
+	}
 	// input slices start at offset 0
 	for _, a := range append(append([]*Value{}, args...), bind...) {
 		x.assumeZeroOffsets(a)
